@@ -313,12 +313,17 @@ fn race(threads: usize, corpus_path: &str, out_path: &str, reps: usize) {
     let corpus = Arc::new(read_corpus(corpus_path));
     let barrier = Arc::new(Barrier::new(threads));
     let mut handles = vec![];
+    // 8 MiB like a main thread unless the monitor asks for another size (2 MiB is what a spawned thread gets)
+    let stack = std::env::var("VERIF_THREAD_STACK")
+        .ok()
+        .and_then(|v| v.parse::<usize>().ok())
+        .unwrap_or(8 << 20);
     for t in 0..threads {
         let corpus = corpus.clone();
         let barrier = barrier.clone();
         let h = std::thread::Builder::new()
             .name(format!("t{}", t))
-            .stack_size(8 << 20)
+            .stack_size(stack)
             .spawn(move || {
                 let n = corpus.len();
                 // a different starting point and stride per thread
